@@ -21,9 +21,9 @@ Theorem C10_local_open_respects_peer_limit :
     open_count (b2z (client c)) c + 1 <= s_max_concurrent_streams (c_remote c).
 Proof. exact send_headers_new_stream_respects_limit. Qed.
 
-(* ... and otherwise raises TooManyStreamsError and emits nothing *)
+(* ... and otherwise raises TooManyStreamsError and emits nothing (only clients open streams this way: fix 12650a7) *)
 Theorem C10_local_open_over_limit_is_refused :
-  forall sid hs L es pw pd pe c, dmem sid (c_streams c) = false ->
+  forall sid hs L es pw pd pe c, client c = true -> dmem sid (c_streams c) = false ->
     open_count (b2z (client c)) c + 1 > s_max_concurrent_streams (c_remote c) ->
     exists c', api_send_headers sid hs L es pw pd pe c = (c', Err TooManyStreamsError 1 0 false) /\ c_out c' = c_out c.
 Proof. exact send_headers_over_limit. Qed.
